@@ -351,8 +351,11 @@ def stepPDropDec (s : State) (h : Nat) : Option State :=
                   ppc := upd s.ppc h .idle }
   | _ => none
 
+/-- `Sender::clone` does not look at the handle's `closed` flag: a closed (but not yet dropped)
+handle can be cloned, which brings `sender_count` back up - even from 0 (known finding F3, closed
+handle accepted).  `fin = false`: a handle exists, so the shared state has not been dropped. -/
 def stepPClone (s : State) (h h' : Nat) : Option State :=
-  if s.hst h = .live ∧ s.hst h' = .unborn then
+  if s.hst h ≠ .unborn ∧ s.hst h' = .unborn ∧ s.fin = false then
     some { s with senders := s.senders + 1, hst := upd s.hst h' .live, liveS := s.liveS ++ [h'] }
   else none
 
